@@ -54,6 +54,7 @@ RespondOK(c, e) ==
   /\ ~e.panic
   /\ CASE a.k \in {"value", "nil"} -> AllowedValue(c, Rq(e), a, e)
        [] a.k = "responder"        -> AllowedResponder(c, Rq(e), e)
+       [] a.k = "libresponder"     -> AllowedLibResponder(c, Rq(e), a, e) /\ e.xhdr = "v"   \* the headers given to middleware.Error are sent
        [] a.k = "error"            -> AllowedError(c, Rq(e), a, e)
   \* "a failed basic-auth attempt carries a WWW-Authenticate challenge naming the configured realm"
   /\ BasicFailed(c, e) => e.wwwauth = Challenge(EffRealm(c))
@@ -72,6 +73,10 @@ RespondWhy(s, e) ==
                ELSE IF a.scripted /\ (~e.errs[1].same \/ e.errs[1].code # a.code) THEN "error-responder-given-another-error"
                ELSE IF ~a.scripted /\ e.status # a.code THEN "earlier-stage-error-has-another-status"
                ELSE "error-content-type-not-negotiated-or-json")
+         ELSE IF a.k = "libresponder" THEN
+              (IF e.status # a.code THEN "library-responder-status-differs"
+               ELSE IF e.xhdr # "v" THEN "library-responder-headers-not-sent"
+               ELSE "library-responder-payload-not-written-by-the-producer-of-the-negotiated-type")
          ELSE IF a.k = "responder" THEN
               (IF \E f \in Negotiated(s, Rq(e)) : e.ctype = Render(f) THEN "responder-not-handed-the-producer-of-the-negotiated-type"
                ELSE "content-type-is-not-the-negotiated-type")
